@@ -213,7 +213,11 @@ class PerformanceTable:
         assert isinstance(check_neg, pd.DataFrame)
 
         def check_coverage(df, label):
-            if len(df.fl.unique()) * len(df.mass.unique()) != len(df):
+            # Every (FL, mass) pair must occur exactly once: comparing the row
+            # count alone would accept a duplicated row hiding a missing one.
+            if df.duplicated(subset=['fl', 'mass']).any() or len(
+                df.fl.unique()
+            ) * len(df.mass.unique()) != len(df):
                 raise ValueError(
                     f'Performance data at {label} ROC does not have full coverage'
                 )
